@@ -91,6 +91,33 @@ example :
   simp [isAssertable, isAssertableList, isAssertablePairs, AVal.nanFree, nanFreeList, nanFreePairs,
     AVal.enumsOk, enumsOkList, enumsOkPairs, PyFloat.isNan]
 
+/-- **The emission order of a set's members is immaterial.**  `_value_to_cst` emits the members of a
+set sorted by their rendered source text; whatever permutation `ys` of the observed members `xs` is
+emitted, the assertion is valid and passes on the observed set. -/
+theorem C20_set_any_order (env : RenderEnv) (prec : PyFloat) (ns : Namespace) (src : String)
+    (xs ys : List AVal) (hperm : xs.Perm ys) (hobs : Observed ns src (.set xs))
+    (ha : isAssertable 0 (.set ys) = true) (hnan : (AVal.set ys).nanFree = true)
+    (henum : (AVal.set ys).enumsOk ns.enumClasses = true) :
+    (render env prec (.object src (.set ys))).valid = true ∧
+    evalStmt ns (render env prec (.object src (.set ys))) = some true := by
+  have hop := noOpaque_of_isAssertable 0 _ ha
+  have hval := valueToCst_valid ns.enumClasses _ henum hop
+  have hev := aeval_valueToCst ns _ hnan henum hop
+  have hsrc := aeval_source hobs
+  have hsv := source_valid hobs
+  refine ⟨by simp [render, Stmt.valid, hsv, hval], ?_⟩
+  have hn : nanFreeList xs = true := by
+    rw [nanFreeList_perm hperm]; simpa [AVal.nanFree] using hnan
+  have ho : noOpaqueList xs = true := by
+    rw [noOpaqueList_perm hperm]; simpa [AVal.noOpaque] using hop
+  have hsub := subsetEq_of_subset xs ys hn ho (fun x hx => hperm.subset hx)
+  simp [render, evalStmt, hsrc, hev, pyEq, hperm.length_eq, hsub]
+
+/-- Non-vacuity: `{2, 'a', None}` iterated as `2, 'a', None`, emitted as `None, 2, 'a'`. -/
+example : [AVal.int 2, .str [97], .none].Perm [.none, .int 2, .str [97]] ∧
+    isAssertable 0 (.set [.none, .int 2, .str [97]]) = true :=
+  ⟨List.perm_append_comm (l₁ := [AVal.int 2, AVal.str [97]]) (l₂ := [AVal.none]),
+   by simp [isAssertable, isAssertableList]⟩
 /-! ## Float assertions -/
 
 /-- For every float that is not NaN (all signs, `-0.0`, `±inf`, subnormals): the rendered
